@@ -31,7 +31,15 @@ def sha(p):
 
 
 def prepare(task, d, variant):
-    """inputs + the paths with their roles; returns (callable, ins, outs)"""
+    """inputs + the paths with their roles; returns (callable, ins, outs).
+    variant 2: as variant 0, the output path is requested without its .rtdc
+    suffix (the task appends it; the output path is the corrected one)"""
+    nosuffix = variant == 2
+    if nosuffix:
+        variant = 0
+
+    def req(p):
+        return p.with_suffix("") if nosuffix else p
     feats = ("deform", "area_um", "image", "time", "frame") if variant == 0 \
         else ("deform", "area_um", "mask", "contour", "time", "frame")
     n = 12 if variant == 0 else 7
@@ -49,7 +57,7 @@ def prepare(task, d, variant):
 
         def run():
             from dclab import cli
-            cli.tdms2rtdc(path_tdms=t, path_rtdc=outs[0])
+            cli.tdms2rtdc(path_tdms=t, path_rtdc=req(outs[0]))
     elif task == "join":
         for i in (1, 2):
             p = d / ("in%d.rtdc" % i)
@@ -62,7 +70,7 @@ def prepare(task, d, variant):
 
         def run():
             from dclab import cli
-            cli.join(paths_in=list(ins), path_out=outs[0])
+            cli.join(paths_in=list(ins), path_out=req(outs[0]))
     else:
         p = d / "in.rtdc"
         gen.write_rtdc(p, list(range(1, n + 1)), feats=feats,
@@ -83,11 +91,11 @@ def prepare(task, d, variant):
             def run():
                 from dclab import cli
                 if task == "compress":
-                    cli.compress(path_in=p, path_out=outs[0], force=True)
+                    cli.compress(path_in=p, path_out=req(outs[0]), force=True)
                 elif task == "repack":
-                    cli.repack(path_in=p, path_out=outs[0])
+                    cli.repack(path_in=p, path_out=req(outs[0]))
                 else:
-                    cli.condense(path_in=p, path_out=outs[0])
+                    cli.condense(path_in=p, path_out=req(outs[0]))
     return run, ins, outs
 
 
@@ -98,6 +106,11 @@ def roles_of(ins, outs):
     for j, p in enumerate(outs, start=1):
         roles[str(p.resolve())] = ("OUT", j)
         roles[str(p.with_suffix(".rtdc~").resolve())] = ("TEMP", j)
+    if outs:
+        roles["__dir__"] = str(outs[0].parent.resolve())
+        roles["__stems__"] = sorted(
+            ((j, p.stem) for j, p in enumerate(outs, start=1)),
+            key=lambda x: -len(x[1]))
     return roles
 
 
@@ -123,6 +136,15 @@ def child(run, roles, fail_at, mode, report):
             os._exit(rc)
     _, status = os.waitpid(pid, 0)
     return os.waitstatus_to_exitcode(status)
+
+
+def strays(d, ins, outs):
+    """files that look like results (.rtdc) but are neither inputs nor the
+    requested outputs: incomplete data may only exist under the temporary
+    name"""
+    known = {p.resolve() for p in list(ins) + list(outs)}
+    return sorted(p.name for p in d.glob("*.rtdc")
+                  if p.resolve() not in known)
 
 
 def content(path):
@@ -166,6 +188,10 @@ def _task_case(job):
         for p in ins:
             if sha(p) != in_sha[p]:
                 out.append(("input modified by a successful " + task, p.name))
+        if strays(d, ins, outs):
+            out.append(("%s leaves data under a name that is neither the "
+                        "output nor the temporary name" % task,
+                        str(strays(d, ins, outs))))
         ks = list(range(1, total + 1))
         if not every and total > 60:
             ks = sorted(set(ks[:25] + ks[-25:] + ks[25:-25:max(
@@ -190,6 +216,14 @@ def _task_case(job):
                                     else "kill"),
                                 "operation %d of %d, output %s" % (
                                     k, total, p.name)))
+                st = strays(d, ins, outs)
+                if st:
+                    out.append(("%s leaves data under a name that is "
+                                "neither the output nor the temporary name"
+                                % task, "operation %d (%s): %s" % (k, mode,
+                                                                   st)))
+                    for nm in st:
+                        (d / nm).unlink()
                 for p in ins:
                     if sha(p) != in_sha[p]:
                         out.append(("input modified by a failing " + task,
@@ -238,7 +272,8 @@ def main(tier, seed, replay=None):
     root = tlc.scratch_dir("vp_c10_")
     try:
         jobs = [(t, v, root, not q) for t in TASKS
-                for v in ((0,) if q else (0, 1))]
+                for v in ((0, 2) if q else (0, 1, 2))
+                if not (t == "split" and v == 2)]
         traces = []
         n_inj = 0
         for info, viols, trace in par.pmap(_task_case, jobs, chunk=1):
@@ -246,6 +281,10 @@ def main(tier, seed, replay=None):
             n_inj += n
             for i in range(max(n, 1)):
                 ev.case(dict(info, run=i), nontrivial=True)
+            if trace and not trace["ops"]:
+                rep.violation("%s: the run touches neither the output nor "
+                              "the temporary path" % trace["task"],
+                              str(info), info, size=1)
             if trace:
                 traces.append(trace)
             for sig, detail in viols:
@@ -266,7 +305,7 @@ def main(tier, seed, replay=None):
             # binding self-test: a write to the output path must be rejected
             bad = [dict(t, ops=t["ops"][:-1] + [{"op": "write_out",
                                                  "j": t["ops"][-1]["j"]}])
-                   for t in traces[:2]]
+                   for t in [t for t in traces if t["ops"]][:2]]
             _, ok2, rej2 = tracecheck.validate("TaskAtomicTrace", TRACE, bad,
                                                workers=1)
             ev.extra["binding_selftest_rejected"] = len(rej2)
